@@ -335,6 +335,37 @@ def run(tier, seed, replay=None):
                              'what': 'the models applied by the plan (name and version suffix) are not the model references of the statement'})
         except Exception:
             pass
+        # what is sent to an integration (the query of a fetch step, the condition of a delete step) has the integration qualifier
+        # removed from column names too
+        from mindsdb_sql.planner.steps import DeleteStep
+        from mindsdb_sql.parser.ast.base import ASTNode as _AST
+
+        def idents(x, seen_):
+            if x is None or id(x) in seen_:
+                return
+            seen_.add(id(x))
+            if isinstance(x, Identifier):
+                yield x
+            if isinstance(x, (list, tuple)):
+                for y in x:
+                    yield from idents(y, seen_)
+            elif isinstance(x, _AST):
+                for v_ in vars(x).values():
+                    yield from idents(v_, seen_)
+        dbs_ = {x.lower() for x in list(pl.databases)}
+        for st in plan.steps:
+            sent = st.query if isinstance(st, FetchDataframeStep) else (st.where if isinstance(st, DeleteStep) else None)
+            if sent is None:
+                continue
+            bad_q = [i_.to_string() for i_ in idents(sent, set()) if len(i_.parts) >= 3 and isinstance(i_.parts[0], str) and i_.parts[0].lower() in dbs_]
+            if bad_q:
+                up = {'uppercase_qualifier'} if any(q_ != q_.lower() for q_ in bad_q) else set()
+                fd = [f_ for f_ in findings if f_['classifier'].get('kind') == 'misrouted' and set(f_['classifier']['needs']) <= up and up]
+                if fd:
+                    R.known_finding(f'{fd[0]["id"]}: {fd[0]["what"]}')
+                elif len(R.violations) < 6:
+                    R.violation({'sql': sql, 'catalog': cname, 'step': type(st).__name__, 'sent': str(sent), 'qualified_names_left': bad_q,
+                                 'what': 'a column name in what is sent to an integration still carries the integration qualifier'})
         for st in plan.steps:
             if isinstance(st, FetchDataframeStep) and st.query is not None:
                 stats['fetch_steps'] += 1
